@@ -148,7 +148,8 @@ Definition ads_for_peer (p : N) (ads : list adv) : list adv := filter (matches_p
 
 (* config.Peer: name, node selectors (matchLabels lists, canonical), and one
    number standing for every other field (reflect.DeepEqual compares all) *)
-Record pcfg := { pc_name : N; pc_sels : list (list (N * N)); pc_attr : N }.
+Record pcfg := { pc_name : N; pc_sels : list (list (N * N)); pc_attr : N;
+                 pc_ref : N }.  (* the password secret's reference (0 = none): a field like any other for DeepEqual *)
 Definition pair_eqb (a b : N * N) : bool := (fst a =? fst b) && (snd a =? snd b).
 Fixpoint lbl_eqb (a b : list (N * N)) : bool :=
   match a, b with
@@ -163,9 +164,11 @@ Fixpoint sels_eqb (a b : list (list (N * N))) : bool :=
   | _, _ => false
   end.
 Definition pcfg_eqb (a b : pcfg) : bool :=
-  (pc_name a =? pc_name b) && sels_eqb (pc_sels a) (pc_sels b) && (pc_attr a =? pc_attr b).
+  (pc_name a =? pc_name b) && sels_eqb (pc_sels a) (pc_sels b) && (pc_attr a =? pc_attr b) && (pc_ref a =? pc_ref b).
 
-Record peerst := { ps_cfg : pcfg; ps_sess : option (list adv) }.  (* Some l: live session, l = last Set *)
+(* ps_sess = Some l: live session, l = last Set; ps_made: the peer configuration the live session was
+   created from (all arguments of NewSession are a function of it, the node name and the BGP mode) *)
+Record peerst := { ps_cfg : pcfg; ps_sess : option (list adv); ps_made : option pcfg }.
 
 Record bstate := { bs_labels : option (list (N * N));     (* c.nodeLabels (nil before the first SetNode) *)
                    bs_peers : list peerst;                 (* c.peers *)
@@ -192,7 +195,7 @@ Definition pfx_in (p : prefix) (ads : list adv) : bool := existsb (fun a => pref
 (* updateAds = publishAds (Set on every live session) + notifyAdsChanged *)
 Definition publish (st : bstate) : list peerst :=
   map (fun p => match ps_sess p with
-                | Some _ => {| ps_cfg := ps_cfg p; ps_sess := Some (ads_for_peer (pc_name (ps_cfg p)) (all_ads st)) |}
+                | Some _ => {| ps_cfg := ps_cfg p; ps_sess := Some (ads_for_peer (pc_name (ps_cfg p)) (all_ads st)); ps_made := ps_made p |}
                 | None => p
                 end) (bs_peers st).
 Definition offered_pfx (ads : list adv) (p : peerst) : bool :=
@@ -212,8 +215,8 @@ Definition update_ads (st : bstate) : bstate :=
 Definition sync_one (labels : option (list (N * N))) (p : peerst) : peerst * bool * bool :=
   let run := should_run labels (ps_cfg p) in
   match ps_sess p, run with
-  | Some _, false => ({| ps_cfg := ps_cfg p; ps_sess := None |}, false, true)      (* closed *)
-  | None, true => ({| ps_cfg := ps_cfg p; ps_sess := Some [] |}, true, false)       (* opened *)
+  | Some _, false => ({| ps_cfg := ps_cfg p; ps_sess := None; ps_made := None |}, false, true)      (* closed *)
+  | None, true => ({| ps_cfg := ps_cfg p; ps_sess := Some []; ps_made := Some (ps_cfg p) |}, true, false)  (* opened: NewSession(p.cfg) *)
   | _, _ => (p, false, false)
   end.
 Definition sync_peers_gen (close_republish : bool) (force : bool) (st : bstate) : bstate :=
@@ -237,7 +240,7 @@ Fixpoint diff_peers (cfgs : list pcfg) (old : list peerst) : list peerst * list 
   | [] => ([], old)
   | c :: cs => match take_peer c old with
                | Some (p, old') => let '(n, o) := diff_peers cs old' in (p :: n, o)
-               | None => let '(n, o) := diff_peers cs old in ({| ps_cfg := c; ps_sess := None |} :: n, o)
+               | None => let '(n, o) := diff_peers cs old in ({| ps_cfg := c; ps_sess := None; ps_made := None |} :: n, o)
                end
   end.
 Definition bset_config_gen (cr : bool) (cfgs : list pcfg) (st : bstate) : bstate :=
